@@ -128,7 +128,9 @@ fn const_json<'tcx>(tcx: TyCtxt<'tcx>, c: &ConstOperand<'tcx>) -> String {
                                 if end <= a.size().bytes() as usize {
                                     let bytes = a.inspect_with_uninit_and_ptr_outside_interpreter(start..end);
                                     let st = String::from_utf8_lossy(bytes).to_string();
-                                    return format!("{{\"c\":\"bstr\",\"v\":{},\"ty\":{}}}", js(&st), js(&tys));
+                                    // exact bytes as well (format templates are not UTF-8)
+                                    let hex: String = bytes.iter().map(|b| format!("{:02x}", b)).collect();
+                                    return format!("{{\"c\":\"bstr\",\"v\":{},\"hex\":{},\"ty\":{}}}", js(&st), js(&hex), js(&tys));
                                 }
                             }
                         }
